@@ -68,6 +68,8 @@ class StoreFaultBase(BaseException):
 class VStore(ValueStore):
     """name: key used in the history; H: rec.Harness (lock, seq, events, in-flight counters)."""
 
+    dt_of = staticmethod(Clock.to_dt)  # how a tick is rendered as a datetime (C18 overrides it per store)
+
     def __init__(self, name, clock, H, normalising=False):
         self.name = name
         self.clock = clock
@@ -174,7 +176,7 @@ class VStore(ValueStore):
         try:
             if H.store_hook is not None:
                 H.store_hook("mt", self)
-            r = None if self.mtick is None else Clock.to_dt(self.mtick)
+            r = None if self.mtick is None else self.dt_of(self.mtick)
         except BaseException as e:
             self._leave("mt_raise", "mt", type(e).__name__)
             raise
